@@ -126,6 +126,8 @@ pub struct BlockRec {
     pub calls: Vec<Call>,
     /// receipts returned to the indexer for this block, in tx index order: {insc, own, receipt}
     pub receipts: Vec<Value>,
+    /// the semantic transactions this block was built from (for Resubmit)
+    pub txs: Vec<Tx>,
 }
 
 #[derive(Clone, Debug, Default)]
@@ -176,6 +178,7 @@ pub struct Open {
     pub txs: u64,
     pub calls: Vec<Call>,
     pub receipts: Vec<Value>,
+    pub sem_txs: Vec<Tx>,
 }
 
 #[derive(Clone, Debug, Default)]
@@ -219,6 +222,9 @@ pub struct World {
     /// an accepted reorg to the current height may or may not have committed (the statement does not
     /// say); resolved by looking at the height the instance reports after the next loss of caches
     pub noop_reorg_at: Option<u64>,
+    /// semantic transactions of the blocks removed by the last accepted reorg (oldest first)
+    pub orphaned: Vec<Vec<Tx>>,
+    pub resubmit_counter: u32,
 }
 
 impl World {
@@ -242,6 +248,8 @@ impl World {
             last_ts: BASE_TS,
             reorg_targets: vec![],
             noop_reorg_at: None,
+            orphaned: vec![],
+            resubmit_counter: 0,
         }
     }
 
@@ -505,6 +513,7 @@ impl World {
                 txs: 0,
                 calls: vec![],
                 receipts: vec![],
+                sem_txs: vec![],
             });
         }
         let o = self.open.as_ref().unwrap();
@@ -575,6 +584,16 @@ impl World {
 
     /// execute one transaction of a block op; returns the response
     pub fn exec_tx(&mut self, ts: u64, hash: &HashMode, tx: &Tx) -> Resp {
+        let r = self.exec_tx_inner(ts, hash, tx);
+        if r.is_ok() {
+            if let Some(o) = self.open.as_mut() {
+                o.sem_txs.push(tx.clone());
+            }
+        }
+        r
+    }
+
+    fn exec_tx_inner(&mut self, ts: u64, hash: &HashMode, tx: &Tx) -> Resp {
         let (ts, hash_param, tx_idx) = self.ensure_open(ts, hash);
         let insc = insc_for(tx.id);
         self.uni.inscription_ids.insert(insc.clone());
@@ -760,6 +779,9 @@ impl World {
         if r.is_ok() {
             let o = self.open.take().unwrap();
             self.finalised(o.height, o.ts, o.calls, o.receipts);
+            if let Some(b) = self.chain.last_mut() {
+                b.txs = o.sem_txs;
+            }
         }
         r
     }
@@ -773,7 +795,7 @@ impl World {
         self.uni.max_height = self.uni.max_height.max(height);
         self.height = Some(height);
         self.max_finalised = Some(self.max_finalised.map_or(height, |m| m.max(height)));
-        self.chain.push(BlockRec { height, hash, ts, calls, receipts });
+        self.chain.push(BlockRec { height, hash, ts, calls, receipts, txs: vec![] });
         self.snapshots.insert(height, self.book.clone());
         self.last_ts = ts;
         self.stats.bump("blocks_finalised");
@@ -923,6 +945,43 @@ impl World {
             Op::Read(r) => {
                 self.exec_read(r);
             }
+            Op::Resubmit { n, extra_first } => {
+                if self.open.is_none() && !self.orphaned.is_empty() {
+                    let blocks: Vec<Vec<Tx>> = self.orphaned.drain(..).take(*n as usize).collect();
+                    self.orphaned.clear();
+                    for (bi, mut txs) in blocks.into_iter().enumerate() {
+                        self.resubmit_counter += 1;
+                        if *extra_first && bi == 0 {
+                            // one more transaction of the first sender in front: nonces (and with them the
+                            // addresses of re-deployed contracts) shift
+                            let sender = txs.iter().find_map(|t| match &t.kind {
+                                TxKind::Deploy { sender, .. } | TxKind::Call { sender, .. } => Some(*sender),
+                                _ => None,
+                            });
+                            if let Some(sender) = sender {
+                                txs.insert(0, Tx {
+                                    id: 9_000_000 + self.resubmit_counter,
+                                    kind: TxKind::Call { sender, target: Target::Dead, by_inscription: false, data: Cd::Empty },
+                                    len: LenPolicy::Generous,
+                                    enc: Enc::Hex,
+                                });
+                            }
+                        }
+                        let ts = self.last_ts + 1;
+                        let hash = HashMode::Explicit(9_500_000 + self.resubmit_counter);
+                        for tx in &txs {
+                            let r = self.exec_tx(ts, &hash, tx);
+                            match &r {
+                                Resp::Ok(_) => self.stats.bump("tx_ok"),
+                                Resp::Err { .. } => self.stats.bump("tx_rejected"),
+                                Resp::Panic(_) => self.stats.bump("tx_panic"),
+                            }
+                        }
+                        self.finalise(ts, &hash);
+                        self.stats.bump("resubmitted_blocks");
+                    }
+                }
+            }
             Op::Bad(b) => {
                 self.exec_bad(b);
             }
@@ -937,6 +996,7 @@ impl World {
             if let Some(h) = self.height {
                 if target < h {
                     self.stats.bump(&format!("reorg_depth_{}", h - target));
+                    self.orphaned = self.chain.iter().filter(|b| b.height > target).map(|b| b.txs.clone()).filter(|t| !t.is_empty()).collect();
                     self.roll_back_to(Some(target));
                     // a reorg commits: everything up to target is now durable
                     self.committed = Some(target);
@@ -1112,6 +1172,27 @@ impl World {
                 let mut p = self.simple_call_params(ts, &hash, txs, &tag);
                 p["base64_data"] = json!("AAE");
                 self.call("brc20_call", p)
+            }
+            BadOp::BothEncodingsHexBad => {
+                let mut p = self.simple_call_params(ts, &hash, txs, &tag);
+                p["data"] = json!("0xnot-hex-at-all");
+                p["base64_data"] = json!("AAE");
+                self.call("brc20_call", p)
+            }
+            BadOp::BothEncodingsB64Bad => {
+                let mut p = self.simple_call_params(ts, &hash, txs, &tag);
+                p["base64_data"] = json!("!!!!");
+                self.call("brc20_call", p)
+            }
+            BadOp::FinaliseExistingHash => {
+                if mid {
+                    return Resp::Ok(Value::Null);
+                }
+                // an older block's hash (not the tip's), empty block
+                let Some(existing) = self.chain.iter().rev().nth(2).or(self.chain.first()).map(|b| b.hash.clone()) else {
+                    return Resp::Ok(Value::Null);
+                };
+                self.call("brc20_finaliseBlock", json!({"timestamp": ts, "hash": existing, "block_tx_count": 0}))
             }
             BadOp::NeitherEncoding => {
                 let mut p = self.simple_call_params(ts, &hash, txs, &tag);
